@@ -1,5 +1,452 @@
+/-
+  C20 — `LuceneCheck` is total and consistent (`__call__` ⇔ `errors` is empty), accepts exactly the
+  well-formed trees, and finds an ill-formed construct wherever it sits.
+
+  The facts about the generated method table (which `check_*` method each of the 20 classes reaches
+  through its MRO, and whether it is wrapped by `_check_children`) are in Lemmas/CheckLemmas.
+-/
 import Luqum.Model.Check
+import Luqum.Lemmas.CheckLemmas
+
 namespace Luqum.Props.C20
-open Luqum
+open Luqum Luqum.Lemmas.Check
+
+export Luqum.Lemmas.Check (isWord isPhrase isField isOr isValue afterField underOr methodOf)
+
+/-! ### 1. totality and consistency -/
+
+/-- `LuceneCheck(zeal)(tree)` is `True` exactly when `errors(tree)` is empty (definitional). -/
 theorem call_iff_no_error (z : Nat) (t : Tree) : luceneCheck z t = (luceneErrors z t).isEmpty := rfl
+
+/-- the same as a proposition -/
+theorem call_true_iff (z : Nat) (t : Tree) : luceneCheck z t = true ↔ luceneErrors z t = [] := by
+  simp [luceneCheck]
+
+theorem call_false_iff (z : Nat) (t : Tree) : luceneCheck z t = false ↔ luceneErrors z t ≠ [] := by
+  simp [luceneCheck]
+
+/-- **Totality**: for every zeal and every tree (of any shape, any classes) the checker yields a
+finite list of messages — `luceneErrors` is a total Lean function (structural recursion on the
+tree); stated as: there is a (unique) result. -/
+theorem total (z : Nat) (t : Tree) :
+    ∃ es : List Str, luceneErrors z t = es ∧ ∀ es', luceneErrors z t = es' → es' = es :=
+  ⟨_, rfl, fun _ h => h.symm⟩
+
+/-- the dispatch never fails either: each class either has a method or yields exactly one
+"Unknown item type" message (no exception) -/
+theorem unknown_class_one_error (z : Nat) (ps : List Tree) (t : Tree) (h : methodOf t = none) :
+    ∃ m, checkErrors z ps t = [m] := by
+  rw [checkErrors.eq_def, checkMethodOf_className, h]; exact ⟨_, rfl⟩
+
+/-! ### 2. well-formed trees have no error (and conversely) -/
+
+/-- `check_word` is silent: no whitespace, and with zeal none of `+ - /` -/
+def wordOk (z : Nat) (v : Str) : Bool :=
+  !v.any isSpace && (z == 0 || !v.any (fun c => c == '+' || c == '/' || c == '-'))
+
+mutual
+/-- **Well-formed trees.** `afterField`: the node is directly below a `SearchField`;
+`underOr`: directly below an `OrOperation`.
+Not included because the checker has no method for them ("Unknown item type"): `Regex`, `From`,
+`To`, `NoneItem`. The bounds of a range and the term of a fuzzy / proximity are not constrained
+further (their check methods do not recurse). -/
+def WF (z : Nat) (afterField underOr : Bool) : Tree → Bool
+  | .term .word v _ => wordOk z v
+  | .term .phrase _ _ => true
+  | .term .regex _ _ => false
+  | .range .. => true
+  | .approx .fuzzy t n _ => isWord t && !n.val.neg
+  | .approx .proximity t _ _ => isPhrase t
+  | .boost e _ _ => WF z false false e
+  | .group .group e _ => !afterField && WF z false false e
+  | .group .fieldGroup e _ => afterField && WF z false false e
+  | .field n e _ => validFieldName n && isValue e && WF z true false e
+  | .op k xs _ => WFs z false (k == .or) xs
+  | .unary .plus a _ => WF z false false a
+  | .unary .not a _ => (z == 0 || !underOr) && WF z false false a
+  | .unary .prohibit a _ => (z == 0 || !underOr) && WF z false false a
+  | .orange .. => false
+  | .none _ => false
+def WFs (z : Nat) (afterField underOr : Bool) : List Tree → Bool
+  | [] => true
+  | x :: r => WF z afterField underOr x && WFs z afterField underOr r
+end
+
+theorem WFs_eq_all (z : Nat) (af uo : Bool) : ∀ xs, WFs z af uo xs = xs.all (WF z af uo)
+  | [] => rfl
+  | x :: r => by simp [WFs, WFs_eq_all z af uo r]
+
+private theorem isOr_op (k xs l) : isOr (.op k xs l) = (k == .or) := by cases k <;> rfl
+
+private theorem wordErrors_nil (z v l) : wordErrors z v l = [] ↔ wordOk z v = true := by
+  unfold wordErrors wordOk
+  by_cases hz : z = 0 <;> by_cases h1 : v.any isSpace = true <;>
+    by_cases h2 : (v.any fun c => c == '+' || c == '/' || c == '-') = true <;> simp [hz, h1, h2]
+
+mutual
+/-- **The checker is silent exactly on the well-formed trees**, in any context: the context enters
+only through the class of the immediate parent. -/
+theorem checkErrors_nil_iff (z : Nat) : ∀ (t : Tree) (ps : List Tree),
+    checkErrors z ps t = [] ↔ WF z (afterField ps) (underOr ps) t = true
+  | .term .word v l, ps => by rw [checkErrors_word, wordErrors_nil]; simp [WF]
+  | .term .phrase v l, ps => by simp [checkErrors_phrase, WF]
+  | .term .regex v l, ps => by simp [checkErrors_regex, WF]
+  | .range a b il ih l, ps => by simp [checkErrors_range, WF]
+  | .approx .fuzzy t n l, ps => by
+      rw [checkErrors_fuzzy]; cases h1 : isWord t <;> cases h2 : n.val.neg <;> simp [WF, h1, h2]
+  | .approx .proximity t n l, ps => by
+      rw [checkErrors_proximity]; cases h : isPhrase t <;> simp [WF, h]
+  | .boost e n l, ps => by
+      rw [checkErrors_boost, checkErrors_nil_iff z e]; simp [WF, isField, isOr]
+  | .group .group e l, ps => by
+      rw [checkErrors_group, List.append_eq_nil_iff, groupErrors_eq_nil, checkErrors_nil_iff z e]
+      simp [WF, isField, isOr]
+  | .group .fieldGroup e l, ps => by
+      rw [checkErrors_fieldGroup, List.append_eq_nil_iff, fieldGroupErrors_eq_nil,
+        checkErrors_nil_iff z e]
+      simp [WF, isField, isOr]
+  | .field n e l, ps => by
+      rw [checkErrors_field, List.append_eq_nil_iff, List.append_eq_nil_iff, checkErrors_nil_iff z e]
+      cases h1 : validFieldName n <;> cases h2 : isValue e <;> simp [WF, isField, isOr, h1, h2]
+  | .op k xs l, ps => by
+      rw [checkErrors_op, checkErrorsList_nil_iff z xs]; simp [WF, isField, isOr_op]
+  | .unary .plus a l, ps => by
+      rw [checkErrors_plus, checkErrors_nil_iff z a]; simp [WF, isField, isOr]
+  | .unary .not a l, ps => by
+      rw [checkErrors_not, List.append_eq_nil_iff, notErrors_eq_nil, checkErrors_nil_iff z a]
+      simp [WF, isField, isOr]
+  | .unary .prohibit a l, ps => by
+      rw [checkErrors_prohibit, List.append_eq_nil_iff, notErrors_eq_nil, checkErrors_nil_iff z a]
+      simp [WF, isField, isOr]
+  | .orange k a i l, ps => by simp [checkErrors_orange, WF]
+  | .none l, ps => by simp [checkErrors_none, WF]
+theorem checkErrorsList_nil_iff (z : Nat) : ∀ (xs : List Tree) (ps : List Tree),
+    checkErrorsList z ps xs = [] ↔ WFs z (afterField ps) (underOr ps) xs = true
+  | [], ps => by simp [checkErrorsList, WFs]
+  | x :: r, ps => by
+      rw [checkErrorsList, List.append_eq_nil_iff, checkErrors_nil_iff z x,
+        checkErrorsList_nil_iff z r]
+      simp [WFs]
+end
+
+/-- **Well-formed trees pass** (generalised to any list of ancestors). -/
+theorem wf_no_error_in (z : Nat) (ps : List Tree) (t : Tree)
+    (h : WF z (afterField ps) (underOr ps) t = true) : checkErrors z ps t = [] :=
+  (checkErrors_nil_iff z t ps).2 h
+
+/-- **Well-formed trees pass.** -/
+theorem wf_no_error (z : Nat) (t : Tree) (h : WF z false false t = true) : luceneErrors z t = [] :=
+  wf_no_error_in z [] t h
+
+/-- … and only those: `WF` is exactly the set of accepted trees. -/
+theorem no_error_iff_wf (z : Nat) (t : Tree) : luceneErrors z t = [] ↔ WF z false false t = true :=
+  checkErrors_nil_iff z t []
+
+theorem call_iff_wf (z : Nat) (t : Tree) : luceneCheck z t = WF z false false t := by
+  rw [Bool.eq_iff_iff, call_true_iff, no_error_iff_wf]
+
+/-! non-vacuity of `WF` -/
+
+/-- `title:(foo OR "bar baz"~2) AND NOT x^2 AND +[a TO b] AND (y~1)` -/
+def sampleWF : Tree :=
+  .op .and [
+    .field "title".toList (.group .fieldGroup (.op .or [
+      .term .word "foo".toList {}, .approx .proximity (.term .phrase "\"bar baz\"".toList {}) {} {}] {}) {}) {},
+    .unary .not (.boost (.term .word "x".toList {}) {} {}) {},
+    .unary .plus (.range (.term .word "a".toList {}) (.term .word "b".toList {}) true true {}) {},
+    .group .group (.approx .fuzzy (.term .word "y".toList {}) {} {}) {}] {}
+
+example : WF 1 false false sampleWF = true := by decide
+example : luceneCheck 1 sampleWF = true := by rw [call_iff_wf]; decide
+/-- zeal matters: `a OR NOT b` is well-formed only without zeal -/
+example : WF 0 false false (.op .or [.term .word ['a'] {}, .unary .not (.term .word ['b'] {}) {}] {}) = true
+    ∧ WF 1 false false (.op .or [.term .word ['a'] {}, .unary .not (.term .word ['b'] {}) {}] {}) = false := by
+  decide
+/-- classes without a check method are never well-formed -/
+example : WF 0 false false (.term .regex "/a/".toList {}) = false := rfl
+
+/-! ### 3. defect completeness: an ill-formed construct is found wherever it sits -/
+
+/-- One-hole contexts built from the constructors through which the checker recurses (their
+methods are wrapped by `_check_children`): operations, groups and field groups, fields, boosts,
+`+` / `NOT` / `-`. -/
+inductive Ctx where
+  | hole
+  | op (k : OpK) (pre : List Tree) (C : Ctx) (post : List Tree) (l : Lay)
+  | group (k : GrpK) (C : Ctx) (l : Lay)
+  | field (name : Str) (C : Ctx) (l : Lay)
+  | boost (C : Ctx) (n : Num) (l : Lay)
+  | unary (k : UnK) (C : Ctx) (l : Lay)
+
+namespace Ctx
+
+/-- plug a tree into the hole -/
+def fill : Ctx → Tree → Tree
+  | .hole, d => d
+  | .op k pre C post l, d => .op k (pre ++ C.fill d :: post) l
+  | .group k C l, d => .group k (C.fill d) l
+  | .field n C l, d => .field n (C.fill d) l
+  | .boost C n l, d => .boost (C.fill d) n l
+  | .unary k C l, d => .unary k (C.fill d) l
+
+/-- the proper ancestors of the hole in `C.fill d`, root first -/
+def parents : Ctx → Tree → List Tree
+  | .hole, _ => []
+  | .op k pre C post l, d => .op k (pre ++ C.fill d :: post) l :: C.parents d
+  | .group k C l, d => .group k (C.fill d) l :: C.parents d
+  | .field n C l, d => .field n (C.fill d) l :: C.parents d
+  | .boost C n l, d => .boost (C.fill d) n l :: C.parents d
+  | .unary k C l, d => .unary k (C.fill d) l :: C.parents d
+
+/-- is the hole directly below a `SearchField`? (`outer`: the answer for the empty context) -/
+def parentIsField (outer : Bool) : Ctx → Bool
+  | .hole => outer
+  | .field _ C _ => C.parentIsField true
+  | .op _ _ C _ _ | .group _ C _ | .boost C _ _ | .unary _ C _ => C.parentIsField false
+
+/-- is the hole directly below a `SearchField`? At the root there is no parent. -/
+def holeParentIsField (C : Ctx) : Bool := C.parentIsField false
+
+/-- is the hole directly below an `OrOperation`? -/
+def parentIsOr (outer : Bool) : Ctx → Bool
+  | .hole => outer
+  | .op k _ C _ _ => C.parentIsOr (k == .or)
+  | .field _ C _ | .group _ C _ | .boost C _ _ | .unary _ C _ => C.parentIsOr false
+
+def holeParentIsOr (C : Ctx) : Bool := C.parentIsOr false
+
+theorem afterField_parents (d : Tree) : ∀ (C : Ctx) (ps : List Tree),
+    afterField (ps ++ C.parents d) = C.parentIsField (afterField ps)
+  | .hole, ps => by simp [parents, parentIsField]
+  | .op k pre C post l, ps => by
+      have := afterField_parents d C (ps ++ [.op k (pre ++ C.fill d :: post) l])
+      simpa [parents, parentIsField, isField] using this
+  | .group k C l, ps => by
+      have := afterField_parents d C (ps ++ [.group k (C.fill d) l])
+      simpa [parents, parentIsField, isField] using this
+  | .field n C l, ps => by
+      have := afterField_parents d C (ps ++ [.field n (C.fill d) l])
+      simpa [parents, parentIsField, isField] using this
+  | .boost C n l, ps => by
+      have := afterField_parents d C (ps ++ [.boost (C.fill d) n l])
+      simpa [parents, parentIsField, isField] using this
+  | .unary k C l, ps => by
+      have := afterField_parents d C (ps ++ [.unary k (C.fill d) l])
+      simpa [parents, parentIsField, isField] using this
+
+theorem underOr_parents (d : Tree) : ∀ (C : Ctx) (ps : List Tree),
+    underOr (ps ++ C.parents d) = C.parentIsOr (underOr ps)
+  | .hole, ps => by simp [parents, parentIsOr]
+  | .op k pre C post l, ps => by
+      have := underOr_parents d C (ps ++ [.op k (pre ++ C.fill d :: post) l])
+      simpa [parents, parentIsOr, isOr_op] using this
+  | .group k C l, ps => by
+      have := underOr_parents d C (ps ++ [.group k (C.fill d) l])
+      simpa [parents, parentIsOr, isOr] using this
+  | .field n C l, ps => by
+      have := underOr_parents d C (ps ++ [.field n (C.fill d) l])
+      simpa [parents, parentIsOr, isOr] using this
+  | .boost C n l, ps => by
+      have := underOr_parents d C (ps ++ [.boost (C.fill d) n l])
+      simpa [parents, parentIsOr, isOr] using this
+  | .unary k C l, ps => by
+      have := underOr_parents d C (ps ++ [.unary k (C.fill d) l])
+      simpa [parents, parentIsOr, isOr] using this
+
+end Ctx
+
+/-- **The checker reaches the hole of every context**: the messages for the plugged tree — checked
+with its real ancestors — are among (a sublist, in order, of) the messages for the whole tree. -/
+theorem hole_errors_sublist (z : Nat) (d : Tree) : ∀ (C : Ctx) (ps : List Tree),
+    (checkErrors z (ps ++ C.parents d) d).Sublist (checkErrors z ps (C.fill d))
+  | .hole, ps => by simp [Ctx.parents, Ctx.fill]
+  | .op k pre C post l, ps => by
+      have ih := hole_errors_sublist z d C (ps ++ [.op k (pre ++ C.fill d :: post) l])
+      rw [Ctx.fill, checkErrors_op, checkErrorsList_append, checkErrorsList]
+      simp only [Ctx.parents, List.append_assoc, List.singleton_append] at ih ⊢
+      exact (ih.trans (List.sublist_append_left _ _)).trans (List.sublist_append_right _ _)
+  | .group .group C l, ps => by
+      have ih := hole_errors_sublist z d C (ps ++ [.group .group (C.fill d) l])
+      rw [Ctx.fill, checkErrors_group]
+      simp only [Ctx.parents, List.append_assoc, List.singleton_append] at ih ⊢
+      exact ih.trans (List.sublist_append_right _ _)
+  | .group .fieldGroup C l, ps => by
+      have ih := hole_errors_sublist z d C (ps ++ [.group .fieldGroup (C.fill d) l])
+      rw [Ctx.fill, checkErrors_fieldGroup]
+      simp only [Ctx.parents, List.append_assoc, List.singleton_append] at ih ⊢
+      exact ih.trans (List.sublist_append_right _ _)
+  | .field n C l, ps => by
+      have ih := hole_errors_sublist z d C (ps ++ [.field n (C.fill d) l])
+      rw [Ctx.fill, checkErrors_field]
+      simp only [Ctx.parents, List.append_assoc, List.singleton_append] at ih ⊢
+      exact (ih.trans (List.sublist_append_right _ _)).trans (List.sublist_append_right _ _)
+  | .boost C n l, ps => by
+      have ih := hole_errors_sublist z d C (ps ++ [.boost (C.fill d) n l])
+      rw [Ctx.fill, checkErrors_boost]
+      simpa only [Ctx.parents, List.append_assoc, List.singleton_append] using ih
+  | .unary .plus C l, ps => by
+      have ih := hole_errors_sublist z d C (ps ++ [.unary .plus (C.fill d) l])
+      rw [Ctx.fill, checkErrors_plus]
+      simpa only [Ctx.parents, List.append_assoc, List.singleton_append] using ih
+  | .unary .not C l, ps => by
+      have ih := hole_errors_sublist z d C (ps ++ [.unary .not (C.fill d) l])
+      rw [Ctx.fill, checkErrors_not]
+      simp only [Ctx.parents, List.append_assoc, List.singleton_append] at ih ⊢
+      exact ih.trans (List.sublist_append_right _ _)
+  | .unary .prohibit C l, ps => by
+      have ih := hole_errors_sublist z d C (ps ++ [.unary .prohibit (C.fill d) l])
+      rw [Ctx.fill, checkErrors_prohibit]
+      simp only [Ctx.parents, List.append_assoc, List.singleton_append] at ih ⊢
+      exact ih.trans (List.sublist_append_right _ _)
+
+/-- **Ill-formed constructs** (`parentIsField`: the construct sits directly below a `SearchField`;
+`parentIsOr`: directly below an `OrOperation`). The first seven are the kinds the property names
+(the seventh comes in two halves); the last two are the pitfalls reported with `zeal > 0`. -/
+inductive Defect (z : Nat) (parentIsField parentIsOr : Bool) : Tree → Prop
+  /-- a word holding whitespace -/
+  | wordSpace (v l) : v.any isSpace = true → Defect z parentIsField parentIsOr (.term .word v l)
+  /-- fuzzy on something that is not a word -/
+  | fuzzyNonWord (t n l) : isWord t = false → Defect z parentIsField parentIsOr (.approx .fuzzy t n l)
+  /-- proximity on something that is not a phrase -/
+  | proximityNonPhrase (t n l) :
+      isPhrase t = false → Defect z parentIsField parentIsOr (.approx .proximity t n l)
+  /-- fuzzy with a negative degree -/
+  | fuzzyNegative (t n l) : n.val.neg = true → Defect z parentIsField parentIsOr (.approx .fuzzy t n l)
+  /-- a field whose name does not match `^\w+$` -/
+  | fieldName (n e l) : validFieldName n = false → Defect z parentIsField parentIsOr (.field n e l)
+  /-- a field whose expression is not a value (boost, proximity, fuzzy, word, phrase, field group) -/
+  | fieldExpr (n e l) : isValue e = false → Defect z parentIsField parentIsOr (.field n e l)
+  /-- a plain group directly after a field -/
+  | groupAfterField (e l) : parentIsField = true → Defect z parentIsField parentIsOr (.group .group e l)
+  /-- a field group not directly after a field (in particular at the root) -/
+  | fieldGroupMisplaced (e l) :
+      parentIsField = false → Defect z parentIsField parentIsOr (.group .fieldGroup e l)
+  /-- (zeal) a word holding one of `+ - /` -/
+  | wordChars (v l) : z ≠ 0 → v.any (fun c => c == '+' || c == '/' || c == '-') = true →
+      Defect z parentIsField parentIsOr (.term .word v l)
+  /-- (zeal) `NOT` / `-` directly below an `OrOperation` -/
+  | notUnderOr (k a l) : z ≠ 0 → k ≠ .plus → parentIsOr = true →
+      Defect z parentIsField parentIsOr (.unary k a l)
+  /-- a node of a class without check method (`Regex`, `From`, `To`, `NoneItem`) -/
+  | unknownClass (t) : methodOf t = none → Defect z parentIsField parentIsOr t
+
+/-- a defect is reported at the node itself, whatever the ancestors are, given only the class of
+the immediate parent -/
+theorem defect_error_in (z : Nat) (ps : List Tree) (d : Tree)
+    (h : Defect z (afterField ps) (underOr ps) d) : checkErrors z ps d ≠ [] := by
+  cases h with
+  | wordSpace v l h => simp [checkErrors_word, wordErrors, h]
+  | fuzzyNonWord t n l h => simp [checkErrors_fuzzy, h]
+  | proximityNonPhrase t n l h => simp [checkErrors_proximity, h]
+  | fuzzyNegative t n l h => simp [checkErrors_fuzzy, h]
+  | fieldName n e l h => simp [checkErrors_field, h]
+  | fieldExpr n e l h => simp [checkErrors_field, h]
+  | groupAfterField e l h =>
+      rw [checkErrors_group]; intro hn
+      rw [List.append_eq_nil_iff, groupErrors_eq_nil] at hn; simp [h] at hn
+  | fieldGroupMisplaced e l h =>
+      rw [checkErrors_fieldGroup]; intro hn
+      rw [List.append_eq_nil_iff, fieldGroupErrors_eq_nil] at hn; simp [h] at hn
+  | wordChars v l hz h => simp [checkErrors_word, wordErrors, hz, h]
+  | notUnderOr k a l hz hk h =>
+      cases k with
+      | plus => exact absurd rfl hk
+      | not =>
+        rw [checkErrors_not]; intro hn
+        rw [List.append_eq_nil_iff, notErrors_eq_nil] at hn; simp [h, hz] at hn
+      | prohibit =>
+        rw [checkErrors_prohibit]; intro hn
+        rw [List.append_eq_nil_iff, notErrors_eq_nil] at hn; simp [h, hz] at hn
+  | unknownClass _ hu =>
+      obtain ⟨m, hm⟩ := unknown_class_one_error z ps d hu
+      simp [hm]
+
+/-- **Defect completeness.** Plug an ill-formed construct into the hole of any context built from
+operations, groups, field groups, fields, boosts and `+` / `NOT` / `-`: the checker reports an error
+(the "directly after a field" / "directly under OR" conditions refer to the innermost constructor of
+the context; at the root there is no parent). -/
+theorem defect_found (z : Nat) (C : Ctx) (d : Tree)
+    (h : Defect z C.holeParentIsField C.holeParentIsOr d) : luceneErrors z (C.fill d) ≠ [] := by
+  have hs := hole_errors_sublist z d C []
+  have hd : checkErrors z ([] ++ C.parents d) d ≠ [] := by
+    apply defect_error_in
+    rw [Ctx.afterField_parents, Ctx.underOr_parents]
+    exact h
+  intro hn
+  rw [luceneErrors] at hn
+  rw [hn] at hs
+  exact hd (List.sublist_nil.mp hs)
+
+/-- the same for the checker used as a predicate -/
+theorem defect_rejected (z : Nat) (C : Ctx) (d : Tree)
+    (h : Defect z C.holeParentIsField C.holeParentIsOr d) : luceneCheck z (C.fill d) = false :=
+  (call_false_iff z _).2 (defect_found z C d h)
+
+/-- consequently no tree with a defect anywhere (in such a context) is well-formed -/
+theorem defect_not_wf (z : Nat) (C : Ctx) (d : Tree)
+    (h : Defect z C.holeParentIsField C.holeParentIsOr d) : WF z false false (C.fill d) = false := by
+  rw [← call_iff_wf]; exact defect_rejected z C d h
+
+/-- the defects that do not depend on an `OrOperation` parent (all but `notUnderOr`) can be stated
+with the field-ness of the parent alone -/
+theorem Defect.mono_or {z : Nat} {pif pio : Bool} {d : Tree} (h : Defect z pif false d) :
+    Defect z pif pio d := by
+  cases h with
+  | wordSpace v l h => exact .wordSpace v l h
+  | fuzzyNonWord t n l h => exact .fuzzyNonWord t n l h
+  | proximityNonPhrase t n l h => exact .proximityNonPhrase t n l h
+  | fuzzyNegative t n l h => exact .fuzzyNegative t n l h
+  | fieldName n e l h => exact .fieldName n e l h
+  | fieldExpr n e l h => exact .fieldExpr n e l h
+  | groupAfterField e l h => exact .groupAfterField e l h
+  | fieldGroupMisplaced e l h => exact .fieldGroupMisplaced e l h
+  | wordChars v l hz h => exact .wordChars v l hz h
+  | notUnderOr k a l hz hk h => exact absurd h (by simp)
+  | unknownClass _ h => exact .unknownClass _ h
+
+/-- **Defect completeness**, in the form with the single parameter "the hole is directly below a
+field" (covers the seven structural kinds, the zeal check on word characters, and unknown classes) -/
+theorem defect_found_struct (z : Nat) (C : Ctx) (d : Tree)
+    (h : Defect z C.holeParentIsField false d) : luceneErrors z (C.fill d) ≠ [] :=
+  defect_found z C d h.mono_or
+
+/-! #### the limits of the claim (contexts through which the checker does *not* recurse)
+
+`check_fuzzy`, `check_proximity` and `check_range` are not wrapped by `_check_children`, so a defect
+below them is not seen: this is why `Ctx` has no approx / range constructor. -/
+
+/-- `"b c"~` — a word holding a space is not reported below a fuzzy -/
+example : luceneErrors 1 (.approx .fuzzy (.term .word "b c".toList {}) {} {}) = [] := by
+  rw [no_error_iff_wf]; decide
+/-- `[f:(a) TO /r/]` — nothing is reported below a range -/
+example : luceneErrors 1 (.range (.field ['f'] (.group .group (.term .word ['a'] {}) {}) {})
+    (.term .regex "/r/".toList {}) true true {}) = [] := by
+  rw [no_error_iff_wf]; decide
+
+/-! non-vacuity of the defect theorem -/
+
+/-- `a AND title:(+□^2)` -/
+def sampleCtx : Ctx :=
+  .op .and [.term .word ['a'] {}]
+    (.field "title".toList (.group .fieldGroup (.unary .plus (.boost .hole {} {}) {}) {}) {}) [] {}
+
+/-- `b c`: a "word" holding a space -/
+def sampleDefect : Tree := .term .word "b c".toList {}
+
+example : Defect 0 sampleCtx.holeParentIsField sampleCtx.holeParentIsOr sampleDefect :=
+  .wordSpace _ _ (by decide)
+example : luceneErrors 0 (sampleCtx.fill sampleDefect) ≠ [] :=
+  defect_found 0 sampleCtx sampleDefect (.wordSpace _ _ (by decide))
+/-- … and the concrete evaluation agrees: exactly one message -/
+example : (luceneErrors 0 (sampleCtx.fill sampleDefect)).length = 1 := by decide
+/-- a group directly after a field (`f:□` with a plain group), and a field group at the root -/
+example : (Ctx.field ['f'] .hole {}).holeParentIsField = true := rfl
+example : luceneErrors 0 ((Ctx.field ['f'] .hole {}).fill (.group .group (.term .word ['a'] {}) {})) ≠ [] :=
+  defect_found 0 _ _ (.groupAfterField _ _ rfl)
+example : luceneErrors 0 (.group .fieldGroup (.term .word ['a'] {}) {}) ≠ [] :=
+  defect_found 0 .hole _ (.fieldGroupMisplaced _ _ rfl)
+/-- a plain group at the root is fine -/
+example : luceneErrors 0 (.group .group (.term .word ['a'] {}) {}) = [] := by
+  rw [no_error_iff_wf]; decide
+
 end Luqum.Props.C20
